@@ -10,15 +10,18 @@ Three load routes, all with validation enabled:
   conf    : ExperimentConfigurationFactory.configurationForExperiment(<package dir>, platform, primitive=False)
   package : ExperimentPackage.packageFromLocation + Experiment.experimentFromPackage + validateExperiment()
 
-sub `valid` : the valid document must load on every route and what is loaded must be structurally executable
-              (acyclic expanded graph, unique identifiers, every reference names an existing node, every node's
-              configuration resolves with no variable left over).
-sub `fault` : the valid document with exactly one fault (dangling reference: renamed / wrong stage / producer dropped;
-              cycle: back edge / self edge; duplicate identifier: in the document / after replication; misspelt
-              keyword at any depth; wrongly typed option; undefined variable: definition removed from every layer /
-              usage renamed) must be rejected on every route with ExperimentInvalidConfigurationError (memory route:
-              that or the FlowIRException family raised by the FlowIRConcrete constructor), never accepted, never another
-              exception type, never hanging. Whatever is accepted is additionally put through the soundness checks.
+sub `valid` : soundness. Every route that accepts the valid document must hand back something structurally
+              executable: acyclic expanded graph, unique identifiers (component list == graph nodes), every reference
+              names an existing node, every node's configuration resolves with no variable left over. (A valid
+              document that does not load is outside the statement; it is reported as a harness error, exit 2.)
+sub `fault` : completeness. The valid document with exactly one fault (dangling reference: renamed / wrong stage /
+              producer dropped; cycle: back edge / self edge; duplicate identifier: in the document / after
+              replication; misspelt keyword at any depth; wrongly typed option; undefined variable: definition removed
+              from every layer / usage renamed) must be rejected on every route with
+              ExperimentInvalidConfigurationError (memory route: that or the FlowIRException family raised explicitly
+              by the FlowIRConcrete constructor), never accepted, never another exception type, never hanging.
+              Whatever is accepted is additionally put through the soundness checks (more specific signature).
+              Replay cases pin the concrete fault position (`fault.at`).
 """
 from __future__ import annotations
 
@@ -32,7 +35,7 @@ import traceback
 import yaml
 from hypothesis import strategies as st
 
-from ..core import Ctx, Violation, explore
+from ..core import Ctx, HarnessError, Violation, explore
 from ..gen import c11_doc as D
 from ..gen import workflow as wfgen
 
@@ -40,7 +43,7 @@ ID = "C11"
 LEVEL = "exploration"
 RULE = ("abstract acyclic workflows by construction (<=5 components over <=3 stages, replication through literal / "
         "global / stage / component variables, aggregators, observers) plus generated extras: optional second platform "
-        "(loaded or not), 0-3 typed options per component from a 44-entry option table placed in the component, its "
+        "(loaded or not), 0-3 typed options per component from a 43-entry option table placed in the component, its "
         "platform override or a blueprint (global / per stage), option values given literally or through a variable "
         "defined on 1-2 of the layers that the loaded platform reads, 0-2 command-line variables, a shared global "
         "variable, an environment. `fault` applies exactly one mutation at a position that the valid twin uses on the "
@@ -66,8 +69,12 @@ ASSUMPTIONS = [
     "a producer is only dropped when its stage keeps another component (no stage-numbering gap as a second fault)",
     "component names are the well separated 'simple' names of the shared generator; reference method is :ref",
     "a load that takes longer than 60 s of wall clock (normal: <0.2 s) is reported as a hang",
+    "a valid generated document that is rejected is not a violation of this property (implication); it stops the run "
+    "as a harness error because the rejection of its mutants would then prove nothing",
+    "variable definitions / environment values are only mistyped when they are the single definition that the loaded "
+    "platform reads (no shadowed layer); the top-level `platforms` list is misspelt but not mistyped (not an option)",
 ]
-TIERS = {"quick": {"shards": 8, "budget": 110}, "thorough": {"shards": 16, "budget": 2400}}
+TIERS = {"quick": {"shards": 8, "budget": 150}, "thorough": {"shards": 16, "budget": 2700}}
 
 ROUTES = ("package", "conf", "memory")
 KIND_WEIGHTS = D.KINDS + ["unknown-key", "unknown-key", "mistyped", "mistyped", "mistyped", "undefined-variable"]
@@ -167,14 +174,19 @@ def wrong_exception_sig(route, e, frames, kind) -> str:
 
 
 def accepted_sig(kind, detail, pos, route) -> str:
-    # one root cause: with primitive=False only the flattened, replicated instance is validated, so schema faults of
-    # the document outside `components` (top-level keys, variables / blueprint / environments sections) go unseen
-    if route != "package" and kind in ("unknown-key", "mistyped") and (
-            len(pos["path"]) == 1 or pos["path"][0] != "components"):
-        return "document-sections-not-validated-when-replicating@" + route
-    # one root cause: the type conversion uses bool(<str>), which is True for every non-empty string
+    """Signature of an accepted faulty document; the three root causes that were identified get their own name."""
+    path = pos.get("path", [])
+    # with primitive=False only the flattened, replicated instance is validated, so schema faults of the document
+    # outside `components` (top-level keys, variables / blueprint / environments sections) go unseen
+    if route != "package" and kind in ("unknown-key", "mistyped") and (len(path) == 1 or path[0] != "components"):
+        return "document-sections-not-validated-when-replicating"
+    # the type conversion uses bool(<str>), which is True for every non-empty string
     if kind == "mistyped" and pos["cls"] == "bool" and detail.endswith("<-str"):
         return "non-boolean-string-accepted-for-bool-option"
+    # replication converts with int(), 2.5 replicas become 2 before the (post-replication) validation looks
+    if route != "package" and kind == "mistyped" and path[-2:] == ["workflowAttributes", "replicate"] \
+            and detail.endswith("<-float"):
+        return "fractional-replicate-accepted-when-replicating"
     return "accepted:%s:%s@%s" % (kind, detail, route)
 
 
@@ -257,11 +269,11 @@ def check_valid(case, ctx: Ctx):
     context = "platform=%s document:\n%s" % (platform, dump(doc))
     for route in ROUTES:
         res = load(route, doc, platform, ctx)
-        if res[0] == "hang":
-            raise Violation("hang:valid@" + route, context)
-        if res[0] == "rejected":
-            e = res[1]
-            raise Violation("valid-workflow-rejected@" + route, "%s: %s | %s" % (type(e).__name__, str(e)[:600], context))
+        if res[0] != "accepted":
+            # the statement is an implication (loads => executable): a valid document that does not load is outside
+            # the property, but it means the generator left the domain the loader accepts -> harness error, exit 2
+            why = "no answer within the guard" if res[0] == "hang" else "%s: %s" % (type(res[1]).__name__, str(res[1])[:600])
+            raise HarnessError("generated valid document does not load on route %s: %s | %s" % (route, why, context))
         soundness(res[1], route, context)
     nopts = sum(len(c["opts"]) for c in X["comps"])
     nvars = len(D.used_variables(doc, X))
@@ -287,10 +299,11 @@ def check_fault(case, ctx: Ctx):
     # the valid twin loads (cheapest route; the other routes are the subject of `valid`)
     res = load("memory", doc, platform, ctx)
     if res[0] != "accepted":
-        why = "hang" if res[0] == "hang" else "%s: %s" % (type(res[1]).__name__, str(res[1])[:600])
-        raise Violation("valid-workflow-rejected@memory", "%s | platform=%s document:\n%s" % (why, platform, dump(doc)))
+        why = "no answer within the guard" if res[0] == "hang" else "%s: %s" % (type(res[1]).__name__, str(res[1])[:600])
+        raise HarnessError("generated valid twin does not load: %s | platform=%s document:\n%s" % (why, platform, dump(doc)))
     mdoc, what = D.mutate(doc, W, X, fault)
     kind, detail = what["kind"], what["detail"]
+    pinned = {"W": W, "X": X, "fault": dict(fault, at=[kind, what["pos"]])}     # replay independent of enumeration order
     context = "fault=%s (%s) platform=%s mutant document:\n%s" % (kind, what["text"], platform, dump(mdoc))
     outcome = {}
     pending = None
@@ -300,7 +313,11 @@ def check_fault(case, ctx: Ctx):
             v = Violation("hang:%s@%s" % (kind, route), "load did not return within the guard | " + context)
         elif res[0] == "accepted":
             outcome[route] = "accepted"
-            soundness(res[1], route, context)          # raises the more specific signature when unsound
+            try:
+                soundness(res[1], route, context)      # gives the more specific signature when unsound
+            except Violation as sv:
+                sv.case = pinned
+                raise
             v = Violation(accepted_sig(kind, detail, what["pos"], route), "the faulty workflow loads | " + context)
         else:
             e, frames = res[1], res[2]
@@ -316,6 +333,7 @@ def check_fault(case, ctx: Ctx):
         if pending is None:
             pending = v
     if pending is not None:
+        pending.case = pinned
         raise pending
     ctx.rec.label("fault:" + kind, "fault:%s:%s" % (kind, D.subclass(kind, what["pos"])))
     ctx.rec.label(*_shape_labels(W, X))
